@@ -415,7 +415,40 @@ def rule_R21(text, fired):
         _count(fired, 'R21')
 
 
+# ---- R22: guard-continue --------------------------------------------------------------------------
+R22_RX = re.compile(r'\bif\s+([^{};]+?)\s*\{\s*continue\s*;\s*\}')
+
+
+def rule_R22(text, fired):
+    """`if COND { continue; } REST` (REST = the remainder of the enclosing loop body) -> `if !(COND) { REST }`.
+    Refuses when REST itself contains `continue` or when an `else` follows."""
+    while True:
+        m = R22_RX.search(text)
+        if not m:
+            return text
+        # end of the enclosing block: first unmatched '}' after the match
+        ct = rs.code_toks(rs.tokenize(text[m.end():]))
+        depth = 0
+        close = None
+        for t in ct:
+            if t.kind == 'punct' and t.text in rs.OPEN:
+                depth += 1
+            elif t.kind == 'punct' and t.text in rs.CLOSE:
+                if depth == 0:
+                    close = m.end() + t.start
+                    break
+                depth -= 1
+        if close is None:
+            raise Refuse('R22: no enclosing block')
+        rest = text[m.end():close]
+        if re.match(r'\s*else\b', rest) or re.search(r'\bcontinue\b', rest):
+            raise Refuse('R22: else branch or second continue')
+        text = text[:m.start()] + f'if !({m.group(1)}) {{{rest}}}\n' + text[close:]
+        _count(fired, 'R22')
+
+
 RULES = {
+    'R22': rule_R22,
     'R21': rule_R21,
     'R20': rule_R20,
     'R19': rule_R19,
@@ -432,7 +465,7 @@ RULES = {
     'R9': rule_R9,
     'R13': rule_R13,
 }
-ORDER = ['R21', 'R19', 'R20', 'R10', 'R2', 'R9', 'R6b', 'R6', 'R7', 'R13', 'R14', 'R15', 'R16', 'R18', 'R5']
+ORDER = ['R22', 'R21', 'R19', 'R20', 'R10', 'R2', 'R9', 'R6b', 'R6', 'R7', 'R13', 'R14', 'R15', 'R16', 'R18', 'R5']
 
 
 def apply_rules(text, active, fired, extra_subs=()):
